@@ -324,6 +324,22 @@ def reload_rule(ctx, rule='C02.reload'):
     if not sites:
         return [bad(rule, '%s | free list not loaded' % dbopen.qual, 'DBInner::open no longer loads the persisted free list into the free set '
                     '(after reopening, every freed page is forgotten)', where='%s:%d' % (dbopen.file, dbopen.line))]
+    # a bound on the LENGTH of the persisted list that is derived from the page size but not from the page's overflow count treats every multi-page
+    # list as damaged (or cuts it): free lists spill into overflow pages
+    import c16
+    for bb in sorted(dbopen.reachable_blocks()):
+        t0 = dbopen.term(bb)
+        if t0['k'] != 'switch':
+            continue
+        e = du.sym(t0['discr'])
+        has_count = c16._tree_has(e, lambda x: x[0] == 'field' and x[2] and x[2][-1] == 'count')
+        has_ps = c16._tree_has(e, lambda x: (x[0] == 'field' and x[2] and x[2][-1] == 'pagesize') or
+                               (x[0] == 'arg' and 1 <= x[1] <= dbopen.argc and dbopen.locals[x[1]]['ty'] == 'u64'))
+        has_ovf = c16._tree_has(e, lambda x: x[0] == 'field' and x[2] and x[2][-1] == 'overflow')
+        if has_count and has_ps and not has_ovf:
+            res.append(bad(rule, '%s | free-list length bounded by a one-page capacity' % dbopen.qual,
+                           'at %s the element count of the free-list page is compared with a bound computed from the page size (%s) that ignores the page\'s overflow count: '
+                           'a valid free list that spans overflow pages is refused or cut on open' % (dbopen.loc(bb), c16._fmt(e)[:120]), where=dbopen.loc(bb)))
     for bb, t, c in sites:
         _, atoms = du.slice_operand(t['args'][1])
         from_hdr = has_call(atoms, hdr.path)
@@ -367,6 +383,39 @@ def image_stores(fn, fld):
     return [(bb, si, s) for bb, si, s in stores_to_field(fn, 'Meta', fld) if len(s['p']['pr']) == 2 and s['p']['pr'][0]['k'] == 'deref']
 
 
+def _slot_dependence(ctx, fn, du, operand, NONID):
+    """(depends on the snapshot's slot, through a non-identity function): by data flow (`(slot == 0) as u32`, `1 - slot`, `slot ^ 1`) or by control flow
+    (`if slot == 0 { 1 } else { 0 }`: a local assigned different constants under a test of the slot)"""
+    _, atoms = du.slice_operand(operand)
+    dep = has_field(atoms, 'Meta', 'meta_page')
+    nonid = any(a[0] == 'bin' and a[1] in NONID for a in atoms) or any(a[0] == 'un' for a in atoms)
+    if dep and nonid:
+        return True, True
+    l = op_local(operand)
+    if l is None:
+        return dep, nonid
+    locs, _ = du.slice_local(l)
+    for x in sorted(locs):
+        ds = du.defs.get(x, [])
+        consts = set()
+        for bb, si in ds:
+            if si is None:
+                continue
+            st = fn.blocks[bb]['stmts'][si]
+            if not st['p']['pr'] and st['rv']['k'] == 'use' and st['rv']['op']['k'] == 'const':
+                consts.add(st['rv']['op']['c'].get('val'))
+        if len(ds) >= 2 and len(consts) >= 2:
+            for bb, si in ds:
+                for (a, sx) in fn.control_deps_transitive(bb):
+                    at = fn.term(a)
+                    if at['k'] != 'switch':
+                        continue
+                    _, da = du.slice_operand(at['discr'])
+                    if has_field(da, 'Meta', 'meta_page'):
+                        return True, True
+    return dep, nonid
+
+
 def alternate_rule(ctx, rule='C02.alternate'):
     """the header slot written by a commit is a non-identity function of the slot of the snapshot it started from"""
     res = []
@@ -383,9 +432,7 @@ def alternate_rule(ctx, rule='C02.alternate'):
         for bb, si, s in stores:
             if s['rv']['k'] not in ('use', 'cast'):
                 continue
-            _, atoms = du.slice_operand(s['rv']['op'])
-            dep = has_field(atoms, 'Meta', 'meta_page')
-            nonid = any(a[0] == 'bin' and a[1] in NONID for a in atoms) or any(a[0] == 'un' for a in atoms)
+            dep, nonid = _slot_dependence(ctx, fn, du, s['rv']['op'], NONID)
             if dep and nonid:
                 res.append(ok(rule, 'meta_page stored at %s is computed from (not copied from) the snapshot\'s slot' % fn.loc(bb, si), sites=1))
             else:
@@ -407,7 +454,7 @@ def alternate_rule(ctx, rule='C02.alternate'):
         seeks = [(sb, st) for sb, st in seeks if not any(fn.dominates(sb, ob) and fn.dominates(ob, n.bb) and ob != sb for ob, _ in seeks)]
         for sb, st in seeks[-1:]:
             _, atoms = du.slice_operand(st['args'][1])
-            direct = has_field(atoms, 'Meta', 'meta_page') and any(a[0] == 'bin' and a[1] in ('Eq', 'Ne', 'BitXor', 'Sub', 'SubWithOverflow') for a in atoms)
+            direct = all(_slot_dependence(ctx, fn, du, st['args'][1], ('Eq', 'Ne', 'BitXor', 'Sub', 'SubWithOverflow')))
             via = any(a[0] == 'call' and a[2] in bpaths for a in atoms)
             if direct or via:
                 res.append(ok(rule, 'header write offset at %s derives from the alternate-slot computation' % fn.loc(sb), sites=1))
